@@ -9,7 +9,7 @@ from .. import framework as fw
 GEN_SECTIONS = ["Unicode", "Regexes", "Tables"]
 # arithmetic leaf functions whose ASTs are dumped from /repo and proved equal to the hand model (lean/Chartparse/Tie/<X>.lean)
 LEAVES = {'BpmDecode': 'bpm', 'BpmValid': 'valid', 'Anchor': 'anchor', 'BpmStep': ['tslower', 'bpmstep'], 'ComposeSync': [], 'LoopTracks': []}
-IMP = ['syncFromChartLines', 'syncParseData']  # functions dumped as terms of the imperative embedding, run against CPython on every run
+IMP = ['syncFromChartLines', 'syncParseData', 'buildEventsFromData']  # functions dumped as terms of the imperative embedding, run against CPython on every run
 TRUSTED = [
     "leaf ties: Py.evalBody (embedded Python subset, validated against CPython on random expressions and against the real leaf functions every run) + the AST dump",
     "Lean 4 kernel; axioms ⊆ {propext, Classical.choice, Quot.sound}",
